@@ -13,6 +13,10 @@
 //   bnext <arg> k1 k2..   synchronous (blocking) access while a second thread resolves sources k1 k2 ..
 //   res <k> / tres <k>    resolve the future source k awaits, on this thread / on a second thread (joined)
 //   destroy k1 k2 ..      destroy the aggregate (parked) while a second thread resolves k1 k2 ..
+//   stress <limit> <style> <seed>   one resolver thread per asynchronous source; the consumer blocks on this
+//                         thread (style 0 next/value, 1 iterator, 2 future+sync) until <limit> values or the end;
+//                         prints schedule-independent facts only
+//   sdestroy <seed>       destroy the aggregate while the resolver threads are running
 //   end                   settle (resolve in-flight sources until nothing is pending), destroy, account
 //
 // output: `<op> <result> p=<acts executed per source, `e` appended once the body has returned or thrown>` ; events `a<k>=<arg>` (source k received arg) and
@@ -318,6 +322,104 @@ struct case_runner {
         if (bad) evs.push_back("bad-helper");
     }
 
+    // ---- thread stress: one resolver thread per asynchronous source, the consumer blocks on this thread ----
+    std::atomic<bool> stop_resolvers{false};
+    std::vector<std::thread> resolvers;
+    void start_resolvers(unsigned seed) {
+        stop_resolvers = false;
+        for (std::size_t k = 0; k < srcs.size(); ++k) {
+            bool is_async = false;
+            for (auto &a : srcs[k]->pre) is_async |= a.kind == 'a';
+            for (auto &a : srcs[k]->cyc) is_async |= a.kind == 'a';
+            if (!is_async) continue;
+            resolvers.emplace_back([this, k, seed] {
+                unsigned x = seed * 2654435761u + (unsigned)k * 40503u + 1;
+                while (!stop_resolvers.load(std::memory_order_acquire)) {
+                    if (srcs[k]->awaiting.load(std::memory_order_acquire) && srcs[k]->fut->has_awaiter()) {
+                        srcs[k]->resolve();
+                    }
+                    x = x * 1664525u + 1013904223u;
+                    unsigned d = (x >> 24) & 63;
+                    if (d < 24) std::this_thread::yield();
+                    else if (d < 56) std::this_thread::sleep_for(std::chrono::microseconds(d - 20));
+                    // else: spin
+                }
+            });
+        }
+    }
+    void join_resolvers() {
+        stop_resolvers.store(true, std::memory_order_release);
+        for (auto &t : resolvers) t.join();
+        resolvers.clear();
+    }
+    int produced(std::size_t k) {
+        int p = srcs[k]->pos.load(), n = 0;
+        for (int i = 0; i < p; ++i) {
+            const act_t *a = (std::size_t)i < srcs[k]->pre.size() ? &srcs[k]->pre[i]
+                             : &srcs[k]->cyc[((std::size_t)i - srcs[k]->pre.size()) % srcs[k]->cyc.size()];
+            n += a->kind == 'y';
+        }
+        return n;
+    }
+    // prints schedule-independent facts only
+    std::string do_stress(int limit, int style, unsigned seed) {
+        std::vector<int> consumed(srcs.size(), 0);
+        int got = 0, dup = 0, order_bad = 0, unknown = 0;
+        std::string result = "cut";
+        start_resolvers(seed);
+        while (got < limit) {
+            ++g_progress;
+            std::string r;
+            if (style == 0) r = sync_next(0);
+            else if (style == 1 && !has_arg) r = iter_next();
+            else {
+                try {
+                    int arg = 0;
+                    std::unique_ptr<future<int>> f;
+                    if constexpr (has_arg) f.reset(new future<int>([&] { return (*gen)(arg); }));
+                    else f.reset(new future<int>([&] { return (*gen)(); }));
+                    f->sync();
+                    fut = std::move(f);
+                    r = fut_outcome();
+                    fut.reset();
+                } catch (...) {
+                    r = classify(std::current_exception());
+                }
+            }
+            if (r.rfind("v:", 0) == 0) {
+                int v = atoi(r.c_str() + 2);
+                int k = v / 1000 - 1, j = v % 1000;
+                ++got;
+                if (k < 0 || (std::size_t)k >= srcs.size()) { ++unknown; continue; }
+                if (j < consumed[k] % 1000) ++dup;
+                else if (j > consumed[k] % 1000) ++order_bad;
+                else ++consumed[k];
+            } else {
+                result = r;
+                break;
+            }
+        }
+        join_resolvers();
+        int lost = 0, notended = 0, threw = 0, excok = 0;
+        for (std::size_t k = 0; k < srcs.size(); ++k) {
+            int d = produced(k) - consumed[k];
+            if (result == "cut") lost += d > 1 || d < 0; else lost += d != 0;
+            bool e = srcs[k]->ended.load();
+            notended += !e;
+            int p = srcs[k]->pos.load();
+            if (e && p > 0 && (std::size_t)p <= srcs[k]->pre.size() && srcs[k]->pre[p - 1].kind == 't') {
+                ++threw;
+                if (result == "exc:" + std::to_string(srcs[k]->pre[p - 1].code)) excok = 1;
+            }
+        }
+        std::string res = result.rfind("exc:", 0) == 0 ? "exc" : result;
+        std::ostringstream os;
+        os << "stress result=" << res << " got=" << got << " dup=" << dup << " order_bad=" << order_bad
+           << " unknown=" << unknown << " lost=" << lost;
+        if (result != "cut") os << " notended=" << notended << " threw=" << (threw ? 1 : 0) << " excok=" << excok;
+        return os.str();
+    }
+
     std::string account() {
         return "frames=" + std::to_string(g_frames.load()) + " guards=" + std::to_string(g_guards.load());
     }
@@ -430,6 +532,21 @@ struct case_runner {
                     th.join();
                 }
                 out(r ? op : std::string("bad-op"));
+            } else if (op == "stress" && !pending && w.size() == 4) {
+                std::string r = do_stress(atoi(w[1].c_str()), atoi(w[2].c_str()), (unsigned)atoi(w[3].c_str()));
+                flush_args();
+                evs.clear();
+                vh::emit(r, evs);
+            } else if (op == "sdestroy" && !pending && w.size() == 2) {
+                // destruction while the resolver threads are running: the destructor waits for in-flight sources
+                start_resolvers((unsigned)atoi(w[1].c_str()));
+                gen.reset();
+                join_resolvers();
+                destroyed = true;
+                for (auto &s : srcs) s->fut.reset();
+                flush_args();
+                evs.clear();
+                vh::emit("sdestroy " + account(), evs);
             } else if (op == "destroy" && !pending && valid_src(w, 1)) {
                 std::vector<int> ks;
                 for (std::size_t i = 1; i < w.size(); ++i) ks.push_back(atoi(w[i].c_str()));
